@@ -771,7 +771,6 @@ func (r *Router) processEvent(ev *types.Event, reqID interface{}) error {
 
 			// If the span was kept, we want to generate a probe that we'll forward
 			// to a peer IF this span would have been forwarded.
-			ev.Data.MetaRefineryProbe.Set(true)
 			isProbe = true
 		}
 	}
@@ -785,6 +784,15 @@ func (r *Router) processEvent(ev *types.Event, reqID interface{}) error {
 			WithField("isprobe", isProbe).
 			Logf("Sending span from batch to peer")
 
+		if isProbe {
+			// The span itself is already queued for Honeycomb (ProcessSpanImmediately
+			// handed this very event to the upstream transmission, which reads its
+			// destination when the batch is sent). Mark and redirect a copy for the
+			// owning peer instead of the queued event.
+			probe := *ev
+			probe.Data.MetaRefineryProbe.Set(true)
+			ev = &probe
+		}
 		ev.APIHost = targetShard.GetAddress()
 
 		// Unfortunately this doesn't tell us if the event was actually
